@@ -1547,7 +1547,13 @@ impl Writer {
     match self.qos_policies.compliance_failure_wrt(requested_qos) {
       // matched QoS
       None => {
-        let change = self.matched_reader_update(reader_proxy);
+        // A reader that does not request durability (Volatile, or nothing specified) is only
+        // interested in samples written after the match.
+        let reader_wants_history = matches!(
+          requested_qos.durability(),
+          Some(d) if d > policy::Durability::Volatile
+        );
+        let change = self.matched_reader_update(reader_proxy, reader_wants_history);
         if change > 0 {
           self.matched_readers_count_total += change;
           self.send_status(DataWriterStatus::PublicationMatched {
@@ -1602,7 +1608,11 @@ impl Writer {
   // Update the given reader proxy. Preserve data we are tracking.
   // return 0 if the reader already existed
   // return 1 if it was new ( = count of added reader proxies)
-  fn matched_reader_update(&mut self, updated_reader_proxy: &RtpsReaderProxy) -> i32 {
+  fn matched_reader_update(
+    &mut self,
+    updated_reader_proxy: &RtpsReaderProxy,
+    reader_wants_history: bool,
+  ) -> i32 {
     let mut new = 0;
     let is_volatile = self.qos().is_volatile(); // Get this in advance to work with the borrow checker
     self
@@ -1612,10 +1622,10 @@ impl Writer {
       .or_insert_with(|| {
         new = 1;
         let mut new_proxy = updated_reader_proxy.clone();
-        if is_volatile {
-          // With Durabilty::Volatile QoS we won't send the sequence numbers which existed
-          // before matching with this reader. Therefore we set the reader as pending GAP
-          // for all existing sequence numbers
+        if is_volatile || !reader_wants_history {
+          // With Durabilty::Volatile QoS (ours, or the one requested by the reader) we won't
+          // send the sequence numbers which existed before matching with this reader.
+          // Therefore we set the reader as pending GAP for all existing sequence numbers
           new_proxy.set_pending_gap_up_to(self.history_buffer.last_change_sequence_number());
         }
         new_proxy
